@@ -309,6 +309,8 @@ class MessageQueue(Entity):
         if message_id in self._pending_queue:
             self._pending_queue.remove(message_id)
         self._in_flight[message_id] = msg
+        # This delivery answers a redelivery request that is still waiting for its timer.
+        self._redelivery_scheduled.discard(message_id)
 
         # Track delivery latency
         created_time = msg.created_at.to_seconds() if msg.created_at else 0
@@ -464,6 +466,10 @@ class MessageQueue(Entity):
             message_id = event.context.get("message_id")
             if message_id:
                 self._redelivery_scheduled.discard(message_id)
+                if message_id in self._in_flight:
+                    # A poll already redelivered it: delivering it again would put one
+                    # message in flight at two consumers and count a redelivery nobody asked for.
+                    return []
                 delivery_event = yield from self._deliver_message(message_id)
                 if delivery_event:
                     return [delivery_event]
